@@ -378,10 +378,17 @@ func c03Nested(name string, depth int) interface{} {
 	return arr
 }
 
-// VerifC03Nested (P4): nesting depth 2 under a top-level object field.
-func VerifC03Nested() {
-	old := map[string]interface{}{"r": c03Nested("old", 2)}
+// VerifC03Nested (P4): nesting depth 2 on one side, depth 1 on the other,
+// under a top-level object field (depth 2 on both sides is ~4*10^5 shape pairs).
+func VerifC03NestedDeepNew() {
+	old := map[string]interface{}{"r": c03Nested("old", 1)}
 	new := map[string]interface{}{"r": c03Nested("new", 2)}
+	c03Check(old, new)
+}
+
+func VerifC03NestedDeepOld() {
+	old := map[string]interface{}{"r": c03Nested("old", 2)}
+	new := map[string]interface{}{"r": c03Nested("new", 1)}
 	c03Check(old, new)
 }
 
